@@ -79,7 +79,9 @@ def handle (fields : List String) : String :=
       let rB := newRouteChains appObs cfg.mws ownB hOk
       let rU := newRouteChains appObs cfg.mws ownU hOk
       let m := [showObs rA.hall, showObs rAp.hall, showObs rA.hbase, showObs rA.hself, special .noRoute, special .noMethod,
-                special .redirect, optionsItem, showObs rA.hall, showObs rB.hall, showObs rU.hall, showObs rU.hself, showObs rB.hall]
+                special .redirect, optionsItem, showObs rA.hall, showObs rB.hall, showObs rU.hall, showObs rU.hself, showObs rB.hall,
+                -- routes reached by ignoring a trailing slash: the full chain (normal and panicking handler)
+                showObs rA.hall, showObs rAp.hall, showObs rB.hall]
       -- specification: registration order, scope membership, globals outside route-specific
       let gm := Spec.MW.globalMws [] gopts
       let sSpecial (k : Kind) : String := showTrace (Spec.MW.trace k gm [.handler (kindStatus k)])
@@ -88,7 +90,8 @@ def handle (fields : List String) : String :=
       let sSelf (own : List Nat) : String := showTrace (Spec.MW.chain own [.handler 200])
       let autoOpt := gopts.foldl (fun acc o => match o with | .defaults => true | .autoOptions b => b | _ => acc) false
       let s := [sRoute ownA, "skip", "h200", sSelf ownA, sSpecial .noRoute, sSpecial .noMethod, sSpecial .redirect,
-                (if autoOpt then sSpecial .options else sSpecial .noMethod), sRoute ownA, sRoute ownB, sRoute ownU, sSelf ownU, sRoute ownB]
+                (if autoOpt then sSpecial .options else sSpecial .noMethod), sRoute ownA, sRoute ownB, sRoute ownU, sSelf ownU, sRoute ownB,
+                sRoute ownA, "skip", sRoute ownB]
       let hasD := gopts.contains .defaults
       let isScoped := gm.any fun m => m.scope != cAllHandlers && m.id != recoveryId
       let tags := (if hasD then ["defaults"] else []) ++ (if isScoped then ["scoped"] else []) ++
